@@ -140,7 +140,7 @@ contract(E + 'Engine._calculate_update', props=['C05', 'C01', 'C07'],
 
 DU = "deferred_updates[%s][0]"
 NEW_NOT_ISSUED = "forall(lambda d: implies(fresh(d), not d.g_issued))"    # step tokens never enter the scheduling ledger
-contract(E + 'Engine.run_steps', props=['C05', 'C04', 'C07'],
+contract(E + 'Engine.run_steps', props=['C05', 'C04', 'C07', 'C06'],
          types={'layers': 'Seq[Seq[Path]]', 'layer': 'Seq[Path]', 'deferred_updates': 'Seq[Tup[Ref[Defer],Ref[Store]]]',
                 'path': 'Path', 'step': 'Opt[Ref[Process]]', 'update': 'Ref[Defer]', 'store': 'Ref[Store]',
                 'view_expire': 'Bool', 'view_expire_update': 'Bool', 'i': 'Int', 'j': 'Int'},
